@@ -314,7 +314,7 @@ def c13(a):
               "length 9, and seeded histories (length <= 12 in thorough, 8 in quick), each run from instants around "
               "transitions in every zone; after EVERY step the four components are checked against "
               "the zone, Eq/Ord/Hash of consecutive states against their instants, and zone changes for keeping the instant. "
-              "The Zoned results of the C06 and C10 zoned drivers are checked for well-formedness too.")
+              "The Zoned results of the C06 and C10 zoned drivers are checked for well-formedness too. The with-builders of the alphabet (hour/minute, month/day, offset x every conflict policy) are also judged on their result: the documented resolution (replace the fields, prefer the original or given offset when the zone assigns it to the new civil time, else resolve compatibly; reject / always-offset / always-time-zone as documented) must give exactly the returned instant, or fail exactly when it fails.")
     c.assumptions = TRUSTED + ["the harness's independent TZif / POSIX TZ readers", "zic"]
     return c.finish()
 
